@@ -32,13 +32,18 @@ def native(unit_name):
     return deco
 
 
-def unit(prop, name, functions=(), tier="quick", expect="hold", timeout_ms=None, max_paths=20000, kind="proof"):
+def unit(prop, name, functions=(), tier="quick", expect="hold", timeout_ms=None, max_paths=20000, kind="proof",
+         also=()):
+    """also: further property ids this unit serves; for those only the obligations named '<id>.*' are counted"""
+
     def deco(f):
         full = f"{prop}.{name}"
         if full in UNITS:
             raise RuntimeError(f"duplicate unit {full}")
-        UNITS[full] = UnitDecl(prop, full, f, list(functions), tier, expect, (f.__doc__ or "").strip(), timeout_ms,
-                               max_paths, kind)
+        d = UnitDecl(prop, full, f, list(functions), tier, expect, (f.__doc__ or "").strip(), timeout_ms,
+                     max_paths, kind)
+        d.also = tuple(also)
+        UNITS[full] = d
         return f
 
     return deco
